@@ -24,8 +24,15 @@ func (B *Bounds) writeFree(fn *ssa.Function) bool {
 	return res
 }
 
-func localRoot(v ssa.Value) bool {
-	for i := 0; i < 12; i++ {
+func localRoot(v ssa.Value) bool { return localRootSeen(v, map[ssa.Value]bool{}) }
+
+// localRootSeen: v addresses (or is a slice over) memory allocated in this
+// function: an alloc, a make, append of a local slice, or a phi of such.
+func localRootSeen(v ssa.Value, seen map[ssa.Value]bool) bool {
+	for i := 0; i < 24; i++ {
+		if seen[v] {
+			return true // a cycle through phis adds nothing new
+		}
 		switch x := v.(type) {
 		case *ssa.Alloc, *ssa.MakeSlice:
 			return true
@@ -37,7 +44,24 @@ func localRoot(v ssa.Value) bool {
 			case "bytes.NewBuffer", "bytes.NewReader":
 				return true
 			}
+			if b, ok := x.Call.Value.(*ssa.Builtin); ok && b.Name() == "append" {
+				// the result is either the first operand's array or a fresh one
+				seen[v] = true
+				v = x.Call.Args[0]
+				continue
+			}
 			return false
+		case *ssa.Phi:
+			seen[v] = true
+			for _, e := range x.Edges {
+				if c, ok := e.(*ssa.Const); ok && c.Value == nil {
+					continue // nil slice
+				}
+				if !localRootSeen(e, seen) {
+					return false
+				}
+			}
+			return true
 		case *ssa.IndexAddr:
 			v = x.X
 		case *ssa.FieldAddr:
@@ -121,6 +145,9 @@ func (B *Bounds) insWriteFree(ins ssa.Instruction) bool {
 			if e, ok := stdEffects[callee.String()]; ok && e == effRecvOnly && len(cc.Args) > 0 && localRoot(cc.Args[0]) {
 				return true // writes only a fresh local object
 			}
+			if e, ok := stdEffects[callee.String()]; ok && e == effNone {
+				return true // standard-library function that writes nothing visible to the caller
+			}
 			return B.writeFree(callee)
 		}
 		return false
@@ -134,16 +161,23 @@ func (B *Bounds) methodWriteFree(m *types.Func) bool {
 	if m.Pkg() == nil || !strings.HasPrefix(m.Pkg().Path(), modPath) {
 		return false
 	}
-	key := m.Name()
+	key := m.FullName()
 	if v, ok := B.mwMemo[key]; ok {
 		return v
 	}
 	B.mwMemo[key] = true
 	res := true
 	n := 0
+	var iface *types.Interface
+	if sig, ok := m.Type().(*types.Signature); ok && sig.Recv() != nil {
+		iface, _ = sig.Recv().Type().Underlying().(*types.Interface)
+	}
 	for _, fn := range B.P.LibFuncs(false) {
 		if fn.Signature.Recv() == nil || fn.Name() != m.Name() {
 			continue
+		}
+		if iface != nil && !types.Implements(fn.Signature.Recv().Type(), iface) {
+			continue // a method of the same name on a type that cannot be behind this interface
 		}
 		n++
 		if !B.writeFree(fn) {
@@ -281,6 +315,11 @@ func (bf *boundsFn) noWriteBetween(a, b ssa.Instruction) bool {
 					return true
 				}
 			}
+		}
+		// a call that writes only scalar struct fields, fresh memory and
+		// reader state cannot change an element either
+		if ci, ok := ins.(ssa.CallInstruction); ok && elemReader && bf.B.callNoElemWrites(ci) {
+			return true
 		}
 		// a store of a value whose type cannot be (part of) the loaded
 		// value's type leaves it unchanged (no unsafe in gots)
@@ -515,5 +554,106 @@ func (B *Bounds) readsOnlyElements(fn *ssa.Function) bool {
 		}
 	}
 	B.roMemo[fn] = res
+	return res
+}
+
+// bufReadMethods: bytes.Buffer methods that never store into the buffer's
+// byte array (they move the read cursor only).
+var bufReadMethods = map[string]bool{
+	"(*bytes.Buffer).Next": true, "(*bytes.Buffer).ReadByte": true, "(*bytes.Buffer).UnreadByte": true,
+	"(*bytes.Buffer).Len": true, "(*bytes.Buffer).Bytes": true, "(*bytes.Buffer).Reset": true,
+}
+
+// callNoElemWrites: the call cannot store into an element of any slice or
+// array that existed before it.
+func (B *Bounds) callNoElemWrites(ci ssa.CallInstruction) bool {
+	cc := ci.Common()
+	if _, isB := cc.Value.(*ssa.Builtin); isB {
+		return B.insWriteFree(ci)
+	}
+	if cc.IsInvoke() {
+		m := cc.Method
+		if m.Pkg() == nil || !strings.HasPrefix(m.Pkg().Path(), modPath) {
+			return false
+		}
+		var iface *types.Interface
+		if sig, ok := m.Type().(*types.Signature); ok && sig.Recv() != nil {
+			iface, _ = sig.Recv().Type().Underlying().(*types.Interface)
+		}
+		n := 0
+		for _, fn := range B.P.LibFuncs(false) {
+			if fn.Signature.Recv() == nil || fn.Name() != m.Name() {
+				continue
+			}
+			if iface != nil && !types.Implements(fn.Signature.Recv().Type(), iface) {
+				continue
+			}
+			n++
+			if !B.noElemWrites(fn) {
+				return false
+			}
+		}
+		return n > 0
+	}
+	callee := cc.StaticCallee()
+	if callee == nil {
+		// a closure created in this function: its body is a known function
+		if mc, ok := cc.Value.(*ssa.MakeClosure); ok {
+			if fn, ok := mc.Fn.(*ssa.Function); ok {
+				return B.noElemWrites(fn)
+			}
+		}
+		return false
+	}
+	return B.noElemWrites(callee)
+}
+
+// noElemWrites: every store of fn (transitively) goes to a scalar struct
+// field, to memory allocated by fn, or to the cursor of a bytes.Buffer; no
+// store can hit an element of a slice or array the caller already had.
+func (B *Bounds) noElemWrites(fn *ssa.Function) bool {
+	if v, ok := B.neMemo[fn]; ok {
+		return v
+	}
+	if bufReadMethods[fn.String()] {
+		return true
+	}
+	if e, ok := stdEffects[fn.String()]; ok {
+		return e == effNone
+	}
+	if fn.Blocks == nil || fn.Pkg == nil || !strings.HasPrefix(fn.Pkg.Pkg.Path(), modPath) {
+		return B.writeFree(fn)
+	}
+	B.neMemo[fn] = true // optimistic for recursion
+	res := true
+outer:
+	for _, b := range fn.Blocks {
+		for _, ins := range b.Instrs {
+			if B.insWriteFree(ins) {
+				continue
+			}
+			switch x := ins.(type) {
+			case *ssa.Store:
+				if _, isField := x.Addr.(*ssa.FieldAddr); isField {
+					if _, isArr := x.Val.Type().Underlying().(*types.Array); !isArr {
+						continue
+					}
+				}
+				// a captured variable of a closure holds a scalar or a header, not elements
+				if _, isFree := x.Addr.(*ssa.FreeVar); isFree {
+					continue
+				}
+			case *ssa.MapUpdate:
+				continue
+			case ssa.CallInstruction:
+				if B.callNoElemWrites(x) {
+					continue
+				}
+			}
+			res = false
+			break outer
+		}
+	}
+	B.neMemo[fn] = res
 	return res
 }
